@@ -36,7 +36,19 @@ Theorem C06_isolation :
     Forall (fun o => out_eui o <> e) (snd (uplink_data E D s f rx now)).
 Proof. exact uplink_isolation. Qed.
 
+From Lospan Require Import Proof.LifecycleProof.
+(* the queue after one uplink, whatever the frame: untouched, or the ACK / reset rewrite of the stored statuses
+   followed by "sent" marks - nothing is removed, reordered or has its port, bytes or acknowledgement request
+   changed, over whole histories (C08_history_status) *)
+Theorem C06_queue_after_uplink :
+  forall (E D : list N -> list N -> list N) apps st f rx n now,
+    exists l, ds_outbox (fst (l_uplink E D apps st f rx n now)) = marks now l (ds_outbox st) \/
+              ds_outbox (fst (l_uplink E D apps st f rx n now))
+              = marks now l (if ack (fc f) then ack_rows (fcnt f) now (ds_outbox st) else reset_rows (ds_outbox st)).
+Proof. exact outbox_after_uplink. Qed.
+
 Print Assumptions C06_oldest_first.
 Print Assumptions C06_loaded_entry.
 Print Assumptions C06_one_frame_per_uplink.
 Print Assumptions C06_isolation.
+Print Assumptions C06_queue_after_uplink.
